@@ -67,6 +67,9 @@ EmitValues(op, dt) ==
                PrintT(<<"CASE", ToJson(CaseRec("values", op, Vec(dt, selfs), Vec(dt, selfs), <<"values", dt, "same_operand">>) @@ [same |-> <<-1, 0>>])>>))
          /\ (Len(as) > 0 => PrintT(<<"CASE", ToJson(CaseRec("values", op, Vec(dt, as), ScalarT(dt, b), <<"values", dt>>))>>))
          /\ (Len(bs) > 0 => PrintT(<<"CASE", ToJson(CaseRec("values", op, T(dt, <<1>>, <<b>>), Vec(dt, bs), <<"values", dt, "scalar_left">>))>>))
+         \* a rank-0 LEFT operand against a vector (and against a matrix holding the same values)
+         /\ (Len(bs) > 0 => PrintT(<<"CASE", ToJson(CaseRec("values", op, ScalarT(dt, b), Vec(dt, bs), <<"values", dt, "rank0_left">>))>>))
+         /\ (Len(bs) > 1 => PrintT(<<"CASE", ToJson(CaseRec("values", op, ScalarT(dt, b), T(dt, <<Len(bs), 1>>, bs), <<"values", dt, "rank0_left_matrix">>))>>))
 
 EmitTypes(op) ==
    \A d1 \in {"f32", "i32", "bool"}, d2 \in {"f64", "i64", "i32", "u8"} :
